@@ -204,9 +204,12 @@ def build(w):
         callee_contracts={'pool.ApplyResult._set': set_counting},
         externals=body0.externals, requires=body0.requires,
         modifies=body0.modifies + ['g.failed_sends', 'g.releases'],
-        loops={k: dict(v, inv=dict(v['inv'], slot_returned_for_unsendable_job=slot_inv),
+        # (C01 also lets a lazy task sequence raise while it is iterated; that path is C01's to check, not this property's)
+        loops={k: dict({kk: vv for kk, vv in v.items() if kk != 'iter_raises'},
+                       inv=dict(v['inv'], slot_returned_for_unsendable_job=slot_inv),
                        modifies=v['modifies'] + ['g.failed_sends', 'g.releases'])
                for k, v in body0.loops.items()},
+        lemmas=body0.lemmas,
         ensures={'slot_returned_for_unsendable_job': slot_inv},
         raises={k: {'t': 'True'} for k in body0.raises},
     )
